@@ -25,8 +25,8 @@ Record space := mkSp {
   closing : bool;          (* connection: close() was called or an END state was entered *)
   rcvd : list Z;           (* ghost: packet numbers recorded (decrypted + processed without error) in this space *)
   owed : list (Z * Z);     (* ghost: (pn, arrival time) of ack-eliciting packets that carried the largest packet number
-                              when recorded in the application space after handshake completion, and that no ACK
-                              frame written since covers *)
+                              when recorded (application space: after handshake completion), and that no ACK frame
+                              written since covers *)
   frames : list (rs * Z);  (* ghost: ACK frames written: (ranges, handler argument highest_acked) *)
   clk : Z                  (* ghost: time of the last operation *)
 }.
@@ -70,7 +70,7 @@ Definition record (s : space) (pn : Z) (elic : bool) (t d : Z) : space :=
        (if newl then t else lrt s)
        (disc s) (complete s) (closing s)
        (pn :: rcvd s)
-       (if app s && complete s && elic && newl then (pn, t) :: owed s else owed s)
+       (if elic && newl && (negb (app s) || complete s) then (pn, t) :: owed s else owed s)
        (frames s) (clk s).
 
 (* one decrypted packet: its ACK frames acknowledge some of our ACK-bearing packets (dels), then -- unless the
